@@ -9,6 +9,38 @@ HERE = os.path.dirname(os.path.dirname(os.path.abspath(__file__)))
 sys.path.insert(0, HERE)
 
 CLAIMED = {
+    'C12': dict(
+        category='other',
+        text='For every registered data source the backward def-use slice of each value it prints (through locals, '
+             'out-parameters and helper functions) is compared with a table transcribed from the documentation: the '
+             'documented query is called with the documented argument, no other query of the same confusable family '
+             '(real/effective uid/gid; pid/ppid/sid/tid) is used, struct results contribute the documented member only '
+             '(tv_sec vs tv_usec, st_uid, pw_name), name lookups are keyed by the documented id, numeric ids use an '
+             'integer conversion. This is exactly the confusion a suite run as root with all ids 0 cannot see.',
+        design_ref='DESIGN.md §5 C12',
+        note='Not decided: procfs/utmp/hosts parsers (rpname, cgroup, ipaddr, domain beyond their starting query), '
+             'name-service behaviour, exotic process states.',
+        technique='static analysis: interprocedural backward def-use slicing against a specification table'),
+    'C14': dict(
+        category='other',
+        text='Real-uid source (only getuid, no other identity query), path-sensitive polarity (the constants returned on '
+             'paths through / never through the "item == uid" edge are exactly PASS/DROP as specified, for only_uid, '
+             'exclude_uid and only_root), the compared item is the decimal conversion of a list element and takes part '
+             'in no other condition (no hidden bound such as INT_MAX), both list filters share helper, conversion and '
+             'count-bounded loop: complementarity follows for every uid and list.',
+        design_ref='DESIGN.md §5 C14',
+        note='Not decided: decimal parsing and comma splitting as string algorithms (libc atol; csvToArgList).',
+        technique='static analysis: path-sensitive constant/polarity dataflow + def-use + sibling agreement'),
+    'C15': dict(
+        category='other',
+        text='Provenance of the pid driving the ancestor walk (getppid first, afterwards only sscanf over the stat text '
+             'just read from fopen of the path formatted from that pid; loop ends at 0), polarity across the three '
+             'functions (name match only through strcmp == 0, "found" only through the match edge, DROP only for '
+             'found; every error and an exhausted walk give PASS), the comm field delimited by a first-occurrence '
+             'search for "(" and a last-occurrence search for ")", name copy bounded and terminated (A4).',
+        design_ref='DESIGN.md §5 C15',
+        note='Not decided: tokenisation of the argument list (empty items) as a string algorithm; pid namespaces.',
+        technique='static analysis: def-use provenance + path-sensitive polarity dataflow + A4 obligations'),
     'C08': dict(
         category='other',
         text='Agreement and isolation clauses: every option-table row binds name, parser and printer of the same option, '
